@@ -779,8 +779,81 @@ package packets1
 //@      (istype(p, *WillMsgResp) ==> uint8(p.(*WillMsgResp).Header.pktType) == 29)
 //@ pred gwToClientType(p iface) = istype(p, *Connack) || istype(p, *WillTopicReq) || istype(p, *WillMsgReq) || istype(p, *Register) || istype(p, *Regack) || istype(p, *Publish) || istype(p, *Puback) || istype(p, *Pubcomp) || istype(p, *Pubrec) || istype(p, *Pubrel) || istype(p, *Suback) || istype(p, *Unsuback) || istype(p, *Pingresp) || istype(p, *Disconnect) || istype(p, *WillTopicResp) || istype(p, *WillMsgResp) || istype(p, *Advertise) || istype(p, *GwInfo)
 //@ pred clientToGwType(p iface) = istype(p, *Connect) || istype(p, *Auth) || istype(p, *WillTopic) || istype(p, *WillMsg) || istype(p, *Register) || istype(p, *Regack) || istype(p, *Publish) || istype(p, *Puback) || istype(p, *Pubcomp) || istype(p, *Pubrec) || istype(p, *Pubrel) || istype(p, *Subscribe) || istype(p, *Unsubscribe) || istype(p, *Pingreq) || istype(p, *Disconnect) || istype(p, *WillTopicUpd) || istype(p, *WillMsgUpd) || istype(p, *SearchGw)
-//@ opaque pred wfFromGateway(p iface) = packable(p) && typedHeader(p) && gwToClientType(p)
-//@ opaque pred wfFromClient(p iface) = packable(p) && typedHeader(p) && clientToGwType(p)
+// (restricted to the packet types of the direction: equivalent to packable && typedHeader && <direction>Type, with fewer reads)
+//@ opaque pred wfFromGateway(p iface) = p != nil && gwToClientType(p) &&
+//@      (istype(p, *Advertise) ==> p.(*Advertise).Header.pktLength == 5) &&
+//@      (istype(p, *Connack) ==> p.(*Connack).Header.pktLength == 3) &&
+//@      (istype(p, *WillTopicReq) ==> p.(*WillTopicReq).Header.pktLength == 2) &&
+//@      (istype(p, *WillMsgReq) ==> p.(*WillMsgReq).Header.pktLength == 2) &&
+//@      (istype(p, *Regack) ==> p.(*Regack).Header.pktLength == 7) &&
+//@      (istype(p, *Puback) ==> p.(*Puback).Header.pktLength == 7) &&
+//@      (istype(p, *Pubcomp) ==> p.(*Pubcomp).Header.pktLength == 4) &&
+//@      (istype(p, *Pubrec) ==> p.(*Pubrec).Header.pktLength == 4) &&
+//@      (istype(p, *Pubrel) ==> p.(*Pubrel).Header.pktLength == 4) &&
+//@      (istype(p, *Suback) ==> p.(*Suback).Header.pktLength == 8) &&
+//@      (istype(p, *Unsuback) ==> p.(*Unsuback).Header.pktLength == 4) &&
+//@      (istype(p, *Pingresp) ==> p.(*Pingresp).Header.pktLength == 2) &&
+//@      (istype(p, *WillTopicResp) ==> p.(*WillTopicResp).Header.pktLength == 3) &&
+//@      (istype(p, *WillMsgResp) ==> p.(*WillMsgResp).Header.pktLength == 3) &&
+//@      (istype(p, *GwInfo) ==> len(p.(*GwInfo).GatewayAddress) <= 8187) &&
+//@      (istype(p, *Register) ==> len(p.(*Register).TopicName) <= 8184) &&
+//@      (istype(p, *Publish) ==> len(p.(*Publish).Data) <= 8183) &&
+//@      (istype(p, *Disconnect) ==> 0 <= 8186) &&
+//@      (istype(p, *Advertise) ==> uint8(p.(*Advertise).Header.pktType) == 0) &&
+//@      (istype(p, *GwInfo) ==> uint8(p.(*GwInfo).Header.pktType) == 2) &&
+//@      (istype(p, *Connack) ==> uint8(p.(*Connack).Header.pktType) == 5) &&
+//@      (istype(p, *WillTopicReq) ==> uint8(p.(*WillTopicReq).Header.pktType) == 6) &&
+//@      (istype(p, *WillMsgReq) ==> uint8(p.(*WillMsgReq).Header.pktType) == 8) &&
+//@      (istype(p, *Register) ==> uint8(p.(*Register).Header.pktType) == 10) &&
+//@      (istype(p, *Regack) ==> uint8(p.(*Regack).Header.pktType) == 11) &&
+//@      (istype(p, *Publish) ==> uint8(p.(*Publish).Header.pktType) == 12) &&
+//@      (istype(p, *Puback) ==> uint8(p.(*Puback).Header.pktType) == 13) &&
+//@      (istype(p, *Pubcomp) ==> uint8(p.(*Pubcomp).Header.pktType) == 14) &&
+//@      (istype(p, *Pubrec) ==> uint8(p.(*Pubrec).Header.pktType) == 15) &&
+//@      (istype(p, *Pubrel) ==> uint8(p.(*Pubrel).Header.pktType) == 16) &&
+//@      (istype(p, *Suback) ==> uint8(p.(*Suback).Header.pktType) == 19) &&
+//@      (istype(p, *Unsuback) ==> uint8(p.(*Unsuback).Header.pktType) == 21) &&
+//@      (istype(p, *Pingresp) ==> uint8(p.(*Pingresp).Header.pktType) == 23) &&
+//@      (istype(p, *Disconnect) ==> uint8(p.(*Disconnect).Header.pktType) == 24) &&
+//@      (istype(p, *WillTopicResp) ==> uint8(p.(*WillTopicResp).Header.pktType) == 27) &&
+//@      (istype(p, *WillMsgResp) ==> uint8(p.(*WillMsgResp).Header.pktType) == 29)
+//@ opaque pred wfFromClient(p iface) = p != nil && clientToGwType(p) &&
+//@      (istype(p, *SearchGw) ==> p.(*SearchGw).Header.pktLength == 3) &&
+//@      (istype(p, *Regack) ==> p.(*Regack).Header.pktLength == 7) &&
+//@      (istype(p, *Puback) ==> p.(*Puback).Header.pktLength == 7) &&
+//@      (istype(p, *Pubcomp) ==> p.(*Pubcomp).Header.pktLength == 4) &&
+//@      (istype(p, *Pubrec) ==> p.(*Pubrec).Header.pktLength == 4) &&
+//@      (istype(p, *Pubrel) ==> p.(*Pubrel).Header.pktLength == 4) &&
+//@      (istype(p, *Connect) ==> len(p.(*Connect).ClientID) <= 8184) &&
+//@      (istype(p, *WillMsg) ==> len(p.(*WillMsg).WillMsg) <= 8188) &&
+//@      (istype(p, *Register) ==> len(p.(*Register).TopicName) <= 8184) &&
+//@      (istype(p, *Publish) ==> len(p.(*Publish).Data) <= 8183) &&
+//@      (istype(p, *Pingreq) ==> len(p.(*Pingreq).ClientID) <= 8188) &&
+//@      (istype(p, *WillMsgUpd) ==> len(p.(*WillMsgUpd).WillMsg) <= 8188) &&
+//@      (istype(p, *Auth) ==> len(p.(*Auth).Method) + len(p.(*Auth).Data) <= 8186 && len(p.(*Auth).Method) <= 255) &&
+//@      (istype(p, *WillTopic) ==> len(p.(*WillTopic).WillTopic) <= 8187) &&
+//@      (istype(p, *WillTopicUpd) ==> len(p.(*WillTopicUpd).WillTopic) <= 8187) &&
+//@      (istype(p, *Subscribe) ==> len(p.(*Subscribe).TopicName) <= 8183) &&
+//@      (istype(p, *Unsubscribe) ==> len(p.(*Unsubscribe).TopicName) <= 8183) &&
+//@      (istype(p, *Disconnect) ==> 0 <= 8186) &&
+//@      (istype(p, *SearchGw) ==> uint8(p.(*SearchGw).Header.pktType) == 1) &&
+//@      (istype(p, *Auth) ==> uint8(p.(*Auth).Header.pktType) == 3) &&
+//@      (istype(p, *Connect) ==> uint8(p.(*Connect).Header.pktType) == 4) &&
+//@      (istype(p, *WillTopic) ==> uint8(p.(*WillTopic).Header.pktType) == 7) &&
+//@      (istype(p, *WillMsg) ==> uint8(p.(*WillMsg).Header.pktType) == 9) &&
+//@      (istype(p, *Register) ==> uint8(p.(*Register).Header.pktType) == 10) &&
+//@      (istype(p, *Regack) ==> uint8(p.(*Regack).Header.pktType) == 11) &&
+//@      (istype(p, *Publish) ==> uint8(p.(*Publish).Header.pktType) == 12) &&
+//@      (istype(p, *Puback) ==> uint8(p.(*Puback).Header.pktType) == 13) &&
+//@      (istype(p, *Pubcomp) ==> uint8(p.(*Pubcomp).Header.pktType) == 14) &&
+//@      (istype(p, *Pubrec) ==> uint8(p.(*Pubrec).Header.pktType) == 15) &&
+//@      (istype(p, *Pubrel) ==> uint8(p.(*Pubrel).Header.pktType) == 16) &&
+//@      (istype(p, *Subscribe) ==> uint8(p.(*Subscribe).Header.pktType) == 18) &&
+//@      (istype(p, *Unsubscribe) ==> uint8(p.(*Unsubscribe).Header.pktType) == 20) &&
+//@      (istype(p, *Pingreq) ==> uint8(p.(*Pingreq).Header.pktType) == 22) &&
+//@      (istype(p, *Disconnect) ==> uint8(p.(*Disconnect).Header.pktType) == 24) &&
+//@      (istype(p, *WillTopicUpd) ==> uint8(p.(*WillTopicUpd).Header.pktType) == 26) &&
+//@      (istype(p, *WillMsgUpd) ==> uint8(p.(*WillMsgUpd).Header.pktType) == 28)
 // Pack recomputes the header length of these types (assigns lists of the senders):
 // pkt.(*GwInfo).Header.pktLength, pkt.(*Connect).Header.pktLength, pkt.(*WillMsg).Header.pktLength, pkt.(*Register).Header.pktLength, pkt.(*Publish).Header.pktLength, pkt.(*Pingreq).Header.pktLength, pkt.(*WillMsgUpd).Header.pktLength, pkt.(*Auth).Header.pktLength, pkt.(*WillTopic).Header.pktLength, pkt.(*WillTopicUpd).Header.pktLength, pkt.(*Subscribe).Header.pktLength, pkt.(*Unsubscribe).Header.pktLength, pkt.(*Disconnect).Header.pktLength
 
